@@ -9,7 +9,7 @@ from mpmath import iv
 from .. import ival as IV
 from ..model import strip_doc
 from ..symx import safe_simplify
-from ..report import AnalysisError, norm_src
+from ..report import AnalysisError, Ctx, norm_src
 from ..symx import Untranslatable
 
 TOL = 1e-9
@@ -109,6 +109,9 @@ def analyse_init(ctx, cls, P):
     return attrs, atoms
 
 
+_depth = [0]
+
+
 def check_dim(ctx, cls, f):
     """R17-DIM: a ValueError guard on len(x) dominates every use of x; d = 1 + max index."""
     body = strip_doc(f.body)
@@ -125,6 +128,31 @@ def check_dim(ctx, cls, f):
             isinstance(n.ctx, ast.Load)]
     other = [n for n in ast.walk(f) if isinstance(n, ast.Name) and n.id == xname and isinstance(n.ctx, ast.Load) and
              not any(n is u.value for u in uses) and not (isinstance(ctx.model.up(n), ast.Call) and norm_src(ctx.model.up(n).func) == "len")]
+    # the whole point handed to another objective's f: that f's own guard decides (same d, same ValueError)
+    deleg = []
+    for n in list(other):
+        par = ctx.model.up(n)
+        if isinstance(par, ast.Call) and isinstance(par.func, ast.Attribute) and par.func.attr == "f" and par.args == [n]:
+            fe0 = IV.FEval(ctx.model, cls.file, {}, 0, [])
+            fe0.cls_node = cls.node
+            cname = fe0.delegated_class(par.func.value)
+            if cname is not None and cname != cls.name and "f" in ctx.model.classes[cname].methods and _depth[0] < 3:
+                _depth[0] += 1
+                try:
+                    tmp = Ctx(ctx.prop, ctx.tier, ctx.seed, ctx.model)
+                    dd = check_dim(tmp, ctx.model.classes[cname], ctx.model.classes[cname].methods["f"])
+                finally:
+                    _depth[0] -= 1
+                if dd is not None and not tmp.findings:
+                    deleg.append((n, dd, cname))
+                    other.remove(n)
+    if deleg and not uses and not other:
+        dset = {dd for _, dd, _ in deleg}
+        ok = len(dset) == 1
+        ctx.ob("R17-DIM", ok, cls.file, qual, "len(x) != d raises ValueError before any coordinate is read",
+               "the point is handed unchanged to %s.f, whose guard (d=%s) rejects other dimensions" % (deleg[0][2], deleg[0][1]) if ok else
+               "delegates to objectives of different dimensions %s" % sorted(dset), f.lineno)
+        return deleg[0][1] if ok else None
     d = None
     ok = bool(uses)
     why = "f never reads a coordinate of %s" % xname
@@ -211,6 +239,13 @@ def check_class(ctx, cls):
         xs = [sp.Symbol("x%d" % k, real=True) for k in range(d)]
         atoms = []
         fe = IV.FEval(model, cls.file, attrs, d, atoms)
+        fe.cls_node = cls.node
+
+        def delegate(cname, _ctx=ctx):
+            ci = model.classes[cname]
+            ca, _ = analyse_init(_ctx, ci, {})
+            return ci, ca
+        fe.delegate = delegate
         xname = f.args.args[1].arg
         try:
             paths = fe.run_body(strip_doc(f.body), {xname: list(xs)})
